@@ -105,7 +105,7 @@ fn scan(st: &State, rest: &str, code: bool) -> String {
 		for _ in 0..SCAN_CAP {
 			// C03 (anchor `Matches.range.start`): the remaining range strictly shrinks with every reported match —
 			// all three strategies leave `range.start` beyond the reported cursor — so the number of matches is
-			// bounded by the number of start positions; a reported match that leaves it where it was repeats forever.
+			// bounded by the number of start positions (Thm/C03Scan.lean: C03_scan_progress); a reported match that leaves it where it was repeats forever.
 			let before = matches.range().start;
 			if matches.next(&mut save) {
 				hits.push(fmt_hit(&save));
